@@ -16,7 +16,17 @@ import time
 VERIF = "/verif"
 REPO = os.environ.get("VERIF_REPO", "/repo")
 COQ = f"{VERIF}/coq"
+OUT = VERIF          # where evidence/ and replays/ are written
 SCRATCH = "/root/.cache/verif-scratch"
+if os.path.realpath(REPO) != "/repo":
+    # a check run against a scratch copy of the repository must not disturb /verif/coq (its Gen/ files are regenerated
+    # from REPO): work in a private mirror of the Coq tree and write evidence/replays there
+    _alt = "/root/.cache/verif-alt/" + os.path.basename(os.path.realpath(REPO))
+    os.makedirs(_alt, exist_ok=True)
+    subprocess.run(["rsync", "-a", "--delete", "--exclude", "Corr/", "--exclude", ".lock", f"{VERIF}/coq/", f"{_alt}/coq/"], check=False)
+    COQ = f"{_alt}/coq"
+    OUT = _alt
+    SCRATCH = f"{_alt}/scratch"
 sys.path.insert(0, f"{VERIF}/tools/py2coq")
 sys.path.insert(0, f"{VERIF}/tools")
 
@@ -296,18 +306,26 @@ class Run:
             print(f"KNOWN-FINDING: property={self.pid} {known_keys[k]['what']}")
         violation = False
         replay = None
-        os.makedirs(f"{VERIF}/replays", exist_ok=True)
+        os.makedirs(f"{OUT}/replays", exist_ok=True)
         if unlisted:
             violation = True
-            replay = f"{VERIF}/replays/{self.pid}_{self.seed}.json"
-            json.dump({"property": self.pid, "seed": self.seed, "tier": self.tier, "kind": "failing-input",
-                       "failures": unlisted[:20], "red": self.red, "disagreements": self.disagreements[:10]},
+            replay = f"{OUT}/replays/{self.pid}_{self.seed}.json"
+            hist = {}
+            for f in unlisted:
+                hist[f["key"]] = hist.get(f["key"], 0) + 1
+            firsts, seenk = [], set()
+            for f in unlisted:       # smallest case of every finding class first
+                if f["key"] not in seenk:
+                    seenk.add(f["key"]); firsts.append(f)
+            print("  failing classes:", json.dumps(hist))
+            json.dump({"property": self.pid, "seed": self.seed, "tier": self.tier, "kind": "failing-input", "failure_classes": hist,
+                       "failures": (firsts + unlisted)[:40], "red": self.red, "disagreements": self.disagreements[:10]},
                       open(replay, "w"), indent=1, default=str)
             print(f"VIOLATION property={self.pid} replay={replay}")
         elif self.red or self.disagreements:
             # a disagreement / broken obligation that is fully explained by a listed finding does not alarm
             violation = True
-            replay = f"{VERIF}/replays/{self.pid}_{self.seed}.json"
+            replay = f"{OUT}/replays/{self.pid}_{self.seed}.json"
             gen_diff = sh("git diff --stat -- coq/Gen; git diff -- coq/Gen | head -300", cwd=VERIF)[1]
             json.dump({"property": self.pid, "seed": self.seed, "tier": self.tier, "kind": "no-failing-input-found",
                        "no_longer_checks": self.red, "disagreements": self.disagreements[:20],
@@ -335,8 +353,8 @@ class Run:
         cov.update(self.extra_cov)
         ev = {"property_id": self.pid, "tier": self.tier, "seed": self.seed, "level": "proof", "coverage": cov,
               "assumptions": self.assume, "wall_s": round(wall, 2), "violations": (len(unlisted) if unlisted else (1 if violation else 0))}
-        os.makedirs(f"{VERIF}/evidence", exist_ok=True)
-        json.dump(ev, open(f"{VERIF}/evidence/{self.pid}.json", "w"), indent=1, default=str)
+        os.makedirs(f"{OUT}/evidence", exist_ok=True)
+        json.dump(ev, open(f"{OUT}/evidence/{self.pid}.json", "w"), indent=1, default=str)
         print(f"{self.pid}: tier={self.tier} seed={self.seed} obligations={self.obligations} discharged={self.discharged} "
               f"evaluations={self.evals} distinct={len(self.distinct)} disagreements={len(self.disagreements)} "
               f"failures={len(self.failures)} red={len(self.red)} wall={wall:.1f}s")
